@@ -38,7 +38,7 @@ LAST_TRACE = None
 
 
 def run_scenario(gaps, uids, durs, idle, limit, ties=(), cancel_at=None, fail_at=None,
-                 bookmarks=(), exit_timeout=None):
+                 bookmarks=(), exit_timeout=None, returns=None, T=None):
     """Returns (log, overlaps, maxactive, outcome, t_cancel, t_return)."""
     global LAST_TRACE
     n = len(gaps)
@@ -77,13 +77,16 @@ def run_scenario(gaps, uids, durs, idle, limit, ties=(), cancel_at=None, fail_at
         log.append((u, i, start, loop.time()))
         if fail_at is not None and i == fail_at:
             raise ValueError("processor failure")
-        return None
+        return returns[i] if returns is not None else None    # the version of a PATCH made by this processing (or None)
 
     settings = configuration.OperatorSettings()
     settings.queueing.idle_timeout = idle
     settings.queueing.worker_limit = limit
     settings.execution.max_workers = 1       # the thread pool of sync handlers: unrelated to the per-object workers
     total = sum(gaps) + sum(durs) + (n + 1) * idle + 10
+    if T is not None:
+        settings.persistence.consistency_timeout = T
+        total = total + (n + 1) * T
     settings.queueing.exit_timeout = total if exit_timeout is None else exit_timeout
     result = {}
 
@@ -183,6 +186,31 @@ def h_stream(g0: int, g1: int, g2: int, g3: int, d0: int, d1: int, d2: int, d3: 
     return vkopf.verdict(ok)
 
 
+def h_patched(g1: int, g2: int, d0: int, d1: int, idle: int, T: int, t0: bool, t1: bool, t2: bool) -> bool:
+    """
+    pre: g1 >= 0 and g2 >= 0 and d0 >= 0 and d1 >= 0 and idle >= 1 and T >= 0
+    post: _ == True
+    """
+    # The processing of an event may end with a PATCH whose echo is awaited (consistency timeout T): whatever the timings of the
+    # following events relative to that deadline -- processed past it, queued meanwhile -- none of them is lost or reordered.
+    vkopf.begin_path()
+    c = vkopf.cell()
+    uids = c['uids']
+    n = len(uids)
+    gaps = [0, vkopf.pin('g1', g1), vkopf.pin('g2', g2)][:n]
+    durs = [d0, d1, 0][:n]
+    returns = [('echo' if i in c.get('patched', [0]) else None) for i in range(n)]
+    try:
+        log, overlaps, maxactive, result, arrivals = run_scenario(gaps, uids, durs, idle, None, ties=[t0, t1, t2], returns=returns, T=T)
+    except (Deadlock, Diverged, Livelock):
+        return vkopf.verdict(False)
+    ok = _oracle_full(n, uids, log, overlaps, maxactive, None, arrivals, idle, durs)
+    ok = ok and result['outcome'] == 'cancelled'
+    if len(log) == n and log[1][3] > log[0][3] + T:
+        vkopf.witness('processed_past_deadline')
+    return vkopf.verdict(ok)
+
+
 def h_cancel(g0: int, g1: int, g2: int, d0: int, d1: int, d2: int, idle: int, cancel_at: int,
              t0: bool, t1: bool, t2: bool, t3: bool) -> bool:
     """
@@ -268,6 +296,11 @@ def obligations():
     for p in pats3:
         for limit in (None, 1):
             obs.append(Ob('h_stream', {'uids': p, 'limit': limit, 'g0_zero': True, 'last_dur_zero': True}, tiers=('thorough',), timeout=900))
+    # a PATCH made by the first processing is awaited while two more events of the object arrive (all three at once in the quick cell)
+    obs.append(Ob('h_patched', {'uids': ['a', 'a', 'a'], 'patched': [0], 'pin': {'g1': 0, 'g2': 0}}, tiers=('quick', 'thorough'), timeout=600,
+                  twins=['processed_past_deadline']))
+    obs.append(Ob('h_patched', {'uids': ['a', 'a', 'a'], 'patched': [0, 1], 'pin': {'g2': 0}}, tiers=('thorough',), timeout=900))
+    obs.append(Ob('h_patched', {'uids': ['a', 'a', 'a'], 'patched': [0], 'pin': {'g1': 0}}, tiers=('thorough',), timeout=900))
     obs.append(Ob('h_cancel', {'uids': ['a', 'a'], 'limit': None}, tiers=('quick', 'thorough'), timeout=600, twins=['cancel_mid_stream']))
     obs.append(Ob('h_cancel', {'uids': ['a', 'b'], 'limit': None}, tiers=('thorough',), timeout=1500, twins=['cancel_mid_stream']))
     for p in pats2:
